@@ -188,11 +188,13 @@ CHECKS = {
             "Trusted: harness and driver; the first 50 messages per compilation are inspected.",
             "DESIGN.md section 2, C07"),
     "C06": ("exploration",
-            "sanitizers (ASan+UBSan+LSan) and CPU watchdog over structure-aware sweeps and coverage-guided fuzzing (libFuzzer), with an introspection-generated rule set",
+            "sanitizers (ASan+UBSan+LSan), valgrind memcheck and a CPU watchdog over structure-aware sweeps and coverage-guided fuzzing (libFuzzer), with an introspection-generated rule set",
             "A rule set generated from every module's declaration tree reads every field, iterates every array and "
             "dictionary and calls every function overload; real PE/ELF/.NET/Mach-O/DEX seeds, their prefixes, "
-            "boundary-value overwrites of header fields and random data are scanned under ASan+UBSan+LSan with a CPU "
-            "watchdog, then libFuzzer explores from the same corpus. No functional oracle.",
+            "boundary-value overwrites of every 32-bit word of the headers, tables and table targets located by small "
+            "format parsers, and random data are scanned under ASan+UBSan+LSan with a CPU watchdog; a reduced set runs on "
+            "an -O2 build under valgrind memcheck (uninitialised values); then libFuzzer explores from the same corpus. "
+            "No functional oracle.",
             "Trusted: gcc/clang sanitizers (red-zone limits apply); macho and dex are compiled in by the verification "
             "build although the default configure leaves them out.",
             "DESIGN.md section 2, C06"),
